@@ -353,7 +353,7 @@ func ShowDB() ([]*Row, []*Field, error) {
 
 func CreateDB(dbName string) error {
 	if err := makeDBDir(dbName); err != nil {
-		panic(fmt.Sprintf("error making db dir: %s", err.Error()))
+		return fmt.Errorf("error making db dir: %w", err)
 	}
 
 	path, exists, err := dbFilePath(dbName)
